@@ -147,6 +147,16 @@ def r4(ctx):
                         stops = any(y["k"] == "Ret" for y in walk_exprs(anc["t"]))
                         verdict = "pipe-stop" if has_pipe and stops else "err-branch-without-stop"
                         break
+                if anc["k"] == "Match" and anc.get("src") == "Normal" and key == "scrut":
+                    # `match write(..) { Err(e) if e.kind() == BrokenPipe => return Ok(()), _ => {} }`
+                    for a_ in anc["arms"]:
+                        if "Result::Err" in render_pat(a_["pat"]):
+                            txt = render(a_.get("guard")) + render(a_["body"]) if a_.get("guard") is not None else render(a_["body"])
+                            has_pipe = "BrokenPipe" in txt
+                            stops = any(y["k"] == "Ret" for y in walk_exprs(a_["body"])) or a_["body"]["k"] == "Ret"
+                            verdict = "pipe-stop" if has_pipe and stops else "err-branch-without-stop"
+                    if verdict:
+                        break
                 if anc["k"] == "Let" and anc["pat"]["k"] == "Wild":
                     verdict = "ignored"
                     break
@@ -173,7 +183,16 @@ def r4(ctx):
     if not ok:
         ctx.violation("stdout/check_file", ctx.where(CHECK_FILE), "check_file must return Ok(false) when standard output is closed")
     vh = ctx.anchor_hir(VISIT_DIR)
-    stops = [x for x in walk_exprs(vh) if x["k"] == "If" and render(peel(x["c"], methods=False)) == "!checked" and any(y["k"] == "Ret" and render(y["e"]) == "Result::Ok(())" for y in walk_exprs(x["t"]))]
+    vlocs = Locals(vh)
+
+    def stops_on_false(x):
+        # `if !checked { return Ok(()) }` with checked = self.check_file(..)?  (or the call inlined into the test)
+        if x["k"] != "If" or x["c"]["k"] == "LetE":
+            return False
+        pos_, neg_ = guard_atoms([("if", x["c"], True)])
+        return any(c_["k"] == "MCall" and c_["m"] == "check_file" for a_ in neg_ for c_ in walk_exprs(vlocs.chase(a_))) and \
+            any(y["k"] == "Ret" and render(y["e"]) == "Result::Ok(())" for y in walk_exprs(x["t"]))
+    stops = [x for x in walk_exprs(vh) if stops_on_false(x)]
     sites = [c for c in walk_exprs(vh) if c["k"] == "MCall" and c["m"] == "check_file"]
     ok = len(stops) == len(sites) == 2
     ctx.obligation(ok)
